@@ -234,9 +234,21 @@ func (b *Builder) epsilonClosureOnePass(root nfa.StateID) ([]closureEntry, bool,
 		case nfa.StateLook:
 			// Handle anchors (^, $, \A, \z) as epsilon transitions.
 			// For onepass DFA (which is always anchored at start):
-			// - Start anchors (^, \A): Always satisfied - follow epsilon
+			// - Start anchors (^, \A): satisfied in the start state's closure (position 0)
 			// - End anchors ($, \z): Follow epsilon; match checked at input end
-			_, next := state.Look()
+			// The transition table carries no look-behind/look-ahead context, so
+			// assertions that depend on neighboring bytes (\b, \B, and start
+			// anchors after the first byte) cannot be compiled: not one-pass.
+			look, next := state.Look()
+			switch look {
+			case nfa.LookStartText, nfa.LookStartLine:
+				if b.numStates > 0 {
+					return nil, false, ErrNotOnePass
+				}
+			case nfa.LookEndText, nfa.LookEndLine:
+			default:
+				return nil, false, ErrNotOnePass
+			}
 			if next != nfa.InvalidState {
 				if err := b.stackPush(next, slots); err != nil {
 					return nil, false, err
